@@ -42,7 +42,7 @@ const GRIN: u64 = 1_000_000_000;
 const SHAPES: [(&str, bool); 36] = [
 	("accounts", false),
 	("create_account_path", true),
-	("set_active_account", false),
+	("set_active_account", true),
 	("retrieve_outputs", false),
 	("retrieve_outputs+refresh", true),
 	("retrieve_txs", false),
